@@ -866,12 +866,37 @@ func streamC10(r *Rand, n int, o *Out) {
 		base := sets[rr.N(6)].set
 		var derived *url.PercentEncodeSet
 		c := uint(0x20 + rr.N(0x5f))
-		if rr.P(50) {
-			derived = base.Set(c, uint(0x20+rr.N(0x5f)))
-		} else {
+		if rr.P(20) {
+			c = uint(0x7e + rr.N(0x82)) // also beyond the table: 0x7e..0xff (everything above U+007E is in every set anyway)
+		}
+		c2 := uint(0x20 + rr.N(0x5f))
+		isSet := rr.P(50)
+		switch {
+		case isSet && rr.P(15):
+			ab, _ := url.VerifSetDump(base)
+			derived = url.NewPercentEncodeSet(int32(ab), c, c2)
+			base = url.NewPercentEncodeSet(int32(ab))
+		case isSet:
+			derived = base.Set(c, c2)
+		default:
 			derived = base.Clear(c)
 		}
 		orc.Eval("C10")
+		// the derive law, for every code point around the table's end: Set adds exactly its arguments, Clear removes exactly
+		// its argument, and everything above U+007E stays in the set whatever was set or cleared
+		for cp := rune(0); cp < 0x180; cp++ {
+			want := base.RuneShouldBeEncoded(cp)
+			if isSet && (uint(cp) == c || uint(cp) == c2) {
+				want = true
+			}
+			if baseAb, _ := url.VerifSetDump(base); !isSet && uint(cp) == c && cp <= 0x7e && cp >= rune(baseAb) {
+				want = false // Clear only clears the table bit: below the set's all-below bound and above U+007E it has no effect
+			}
+			if derived.RuneShouldBeEncoded(cp) != want || (cp < 0x100 && derived.ByteShouldBeEncoded(byte(cp)) != want) {
+				orc.Fail("C10", "derive-law", fmt.Sprintf("derived set (set=%v, %#x, %#x): U+%04X member=%v, expected %v", isSet, c, c2, cp, derived.RuneShouldBeEncoded(cp), want), "LENC "+defaultCfg.Tok+" "+setTok(derived)+" "+xs(string(cp)))
+				break
+			}
+		}
 		if fp() != before {
 			orc.Fail("C10", "derive-alters-source", fmt.Sprintf("Set/Clear(%#x) changed a named set", c), "LHAS derive "+fmt.Sprint(c))
 			before = fp()
@@ -879,6 +904,9 @@ func streamC10(r *Rand, n int, o *Out) {
 		s := rr.Pick(segPool) + rr.Pick(queryPool) + rr.Pick(userPool) + rr.Pick(fragPool)
 		if rr.P(20) {
 			s = genGarbage(rr)
+		}
+		if c >= 0x7e {
+			s += rr.Pick([]string{"\x7f", "a\x7fb\u00e9", "\u0080", "~\x7f\u00ff", "\u00e9"})
 		}
 		tok := "LENC " + defaultCfg.Tok + " " + setTok(derived) + " " + xs(s)
 		e1 := p.PercentEncodeString(s, derived)
